@@ -809,6 +809,7 @@ def drive(check, tier, seed, budget_s=None, workers=None, log=print):
     searcher.close()
     extra = dict(check.extra_evidence(agg, tier))
     extra['worker_pool_hashseeds'] = hashseeds
+    extra['known_findings_reported'] = sorted(seen_known)        # open findings of KNOWN_FINDINGS.txt reproduced by this run (printed as KNOWN-FINDING, exit 0)
     confirmed = [r for r in reported if r[2]]
     write_evidence(check, tier, seed, agg, len(confirmed), extra=extra, canary=canary)
     log('%s: %d runs (+%d enumerated) in %.1fs, %d distinct non-trivial, %d violation(s), %d known finding(s)'
